@@ -1,5 +1,5 @@
 import OdxVerif.Props.C04Nested2
-import OdxVerif.Proofs.CompCompu3RejectDescribed
+import OdxVerif.Proofs.CompCompu3RejectKinds
 /-! # C04 on the compositional nested tier, third part (task W24): VALUE parameters over **conversion DOPs** (compu-method
     DOPs, DTC-DOPs) as leaves — class `DescribedP3` (`Proofs/CompCompu3RejectDescribed.lean`): `DescribedP2` plus `PDesc.ofConv`
     leaves at any depth of structures (with or without BYTE-SIZE) ∘ fields ∘ multiplexers.  (Separate file; imported nowhere.)
@@ -8,12 +8,25 @@ import OdxVerif.Proofs.CompCompu3RejectDescribed
     or `none`; `typed`) and the refinement statement `ConvSpec.Ok` against the model: accepted ⇒ the conversion facts `ConvOk`
     (strict `encodeDop` hands exactly the internal value to the diag-coded type, the decoder maps it to the decoded value);
     not accepted ⇒ strict `encodeDop` ends in `EncodeError` / `OdxError` (or `unmodelled` where `typed` is false).
-    `ConvSpec.Ok` is PROVED for DTC-DOPs with the IDENTICAL method (`DtcShape.spec_ok`: DTC object / trouble code / short name;
-    unknown name, ambiguous name, unknown code, a code the object cannot hold, any value of another type: `EncodeError`;
-    hypothesis: no trouble code listed twice — otherwise encode succeeds and decode fails, `C04_dtc_duplicate_code_counterexample`).
-    For LINEAR and TEXTTABLE DOPs the rejection lemmas at the DOP level are `linear_rejects_*` / `texttable_rejects_*`
-    (`Proofs/CompCompu3RejectKinds.lean`); their complete `ConvSpec` (which needs, for every accepted value, that the decoder
-    maps the internal value back — for LINEAR an exactness argument over the whole object range) is NOT proved: hence `_partial`. -/
+    `ConvSpec.Ok` is PROVED for
+    * **DTC-DOPs** with the IDENTICAL method (`DtcShape.spec_ok`: DTC object / trouble code / short name; unknown name, ambiguous
+      name, unknown code, a code the object cannot hold, any value of another type: `EncodeError`; hypothesis: no trouble code
+      listed twice — otherwise encode succeeds and decode fails, `C04_dtc_duplicate_code_counterexample`);
+    * **LINEAR and TEXTTABLE DOPs** over an integer object (`CompuShape.spec_ok`, `Proofs/CompCompu3RejectKinds.lean`): the
+      model's conversion layer is state-free and fails only with EncodeError / OdxError / `unmodelled` (`dopP2I_plain`); a
+      supplied atom is accepted iff the conversion returns an internal value the object can hold; everything else — invalid
+      physical value (out of the limits), unknown / ambiguous text, wrong type, `bytes`, non-atoms, an internal value the
+      object cannot hold — is rejected with a library error; `typed` is false exactly where the conversion ends in
+      `unmodelled` (outside the exactness guard, ill-formed strings, non-finite floats).  Two hypotheses on the description
+      (`CompuShape.ok`): the internal values are integers, and every internal value the encoder produces is one the decoder
+      converts back — decidable for a TEXTTABLE (`CompuShape.ok_of_ttCheck`: the finitely many COMPU-INVERSE-VALUEs / limits)
+      and for a LINEAR method over a small unsigned object (`CompuShape.ok_of_linCheck`: enumeration of the object's range).
+    `_partial`: for a LINEAR method over a wide or signed object the second hypothesis stays a hypothesis (it needs the
+    exactness argument over the whole range); float internal / physical types and the other compu categories are outside.
+    **What "decodes back" means at a LINEAR leaf**: the completion `PDescs.complete` holds what the DECODER returns — for a
+    physical value that is not in the image of the conversion that is the ROUNDED value (t = 1 over phys = −40 + 2·i is
+    encoded as i = 20 and decodes to 0; model = odxtools: `1405` ↦ {t: 0}): the encoder rounds to the nearest internal value
+    without an error.  Inherent to an integer internal type; listed as an observation in design_notes/C04.md (W24). -/
 namespace OdxVerif.Codec
 open OdxVerif.Bits OdxVerif.OdxM
 
@@ -118,5 +131,85 @@ theorem C04_dtc_duplicate_code_counterexample :
     (encodeMessage none ps (.dict [("x", .atom (.int 4))]) none true).toOption = some ([0x22, 0, 0, 4], 0) ∧
     errClass (decodeMessage none ps [0x22, 0, 0, 4] true) = some .odx := by
   constructor <;> decide +kernel
+
+/-! ## non-vacuity, TEXTTABLE and LINEAR:
+    [ sid = 0x22; st : STRUCTURE { mode : TEXTTABLE u8, 0..3 ↦ "lo", 4..9 ↦ "hi" (COMPU-INVERSE-VALUE 9);
+                                   t : LINEAR u8, phys = −40 + 2·i, i ∈ [0, 200] } ] -/
+def tScales : List Compu.Scale :=
+  [{ lo := some { value := some (.int 0), itype := none }, hi := some { value := some (.int 3), itype := none },
+     inv := none, const := some (.str "lo") },
+   { lo := some { value := some (.int 4), itype := none }, hi := some { value := some (.int 9), itype := none },
+     inv := some (.int 9), const := some (.str "hi") }]
+def tTScales : List TScale :=
+  [{ lo := .int 0, hi := .int 3, text := [0x6c, 0x6f], inv := none }, { lo := .int 4, hi := .int 9, text := [0x68, 0x69], inv := some (.int 9) }]
+def tMode : CompuShape :=
+  { o := ⟨"mode", none, none, none, true, 8, .uint32⟩, phys := .unicode2, cm := .texttable tTScales,
+    m := .textTable .uint32 .str tScales none none }
+def tLinD : LinDesc := { num0 := -40, num1 := 2, den := 1, lower := some (0, false), upper := some (200, false) }
+def tLinSeg : Compu.LinSeg :=
+  { offset := -40, factor := 2, denom := 1, ilo := some ⟨some (.int 0), some .closed⟩, ihi := some ⟨some (.int 200), some .closed⟩,
+    inv := .int 0, ity := .uint32, pty := .int32, plo := some ⟨some (.int (-40)), some .closed⟩, phi := some ⟨some (.int 360), some .closed⟩ }
+def tTemp : CompuShape :=
+  { o := ⟨"t", none, none, none, true, 8, .uint32⟩, phys := .int32, cm := .linear tLinD, m := .linear tLinSeg }
+
+theorem tMode_ok : tMode.ok :=
+  tMode.ok_of_ttCheck .uint32 .str tScales none none rfl (by simp [tMode, Obj.ok, Obj.encOk, Obj.sizeOk]) (Or.inr rfl) rfl
+    (by decide +kernel) (by decide +kernel)
+theorem tTemp_ok : tTemp.ok :=
+  tTemp.ok_of_linCheck tLinSeg rfl rfl (by decide +kernel) (by simp [tTemp, Obj.ok, Obj.encOk, Obj.sizeOk]) rfl rfl
+    (by decide +kernel) (by decide +kernel)
+
+def tDesc : List PDesc :=
+  [PDesc.ofObjConst ⟨"sid", none, none, none, true, 8, .uint32⟩ (.int 0x22),
+   PDesc.ofValue "st" none (DDesc.struct [tMode.pdesc, tTemp.pdesc])]
+theorem tDesc_described : ∀ p ∈ tDesc, DescribedP3 p := by
+  refine pforall2 _ _ (.old _ (DescribedP2.const _ _ (by simp [Obj.ok, Obj.encOk, Obj.sizeOk]) (by simp [Obj.inRange]))) ?_
+  exact DescribedP3.struct "st" none _ (pforall2 _ _ (tMode.described tMode_ok) (tTemp.described tTemp_ok))
+    (pnamesOk2 _ _ (by decide)) ⟨rfl, trivial⟩
+theorem tDesc_names : PDescs.namesOk tDesc ∧ PDescs.eopLast tDesc := ⟨pnamesOk2 _ _ (by decide), ⟨rfl, trivial⟩⟩
+
+def tMk (m t : PVal) : PVal := .dict [("st", .dict [("mode", m), ("t", t)])]
+def tHi : PVal := .atom (.str [0x68, 0x69])
+
+/-- accepted: "hi" ↦ 9, "lo" ↦ 0; 360 ↦ 200, 0 ↦ 20 — and 1 ↦ 20 as well (rounded: the completion holds 0) -/
+example : [tMk tHi (.atom (.int 360)), tMk (.atom (.str [0x6c, 0x6f])) (.atom (.int 0)), tMk tHi (.atom (.int 1))].map (fun p =>
+      (p.wfAtoms && p.typedForP tDesc && p.acceptedByP tDesc, (encodeMessage none (PDescs.toParams tDesc) p none true).toOption)) =
+    [(true, some ([0x22, 9, 200], 0)), (true, some ([0x22, 0, 20], 0)), (true, some ([0x22, 9, 20], 0))] := by decide +kernel
+example : pvalEq (.dict (PDescs.complete tDesc [("st", .dict [("mode", tHi), ("t", .atom (.int 1))])]))
+    (.dict [("sid", .atom (.int 0x22)), ("st", .dict [("mode", tHi), ("t", .atom (.int 0))])]) = true := by decide +kernel
+
+/-- rejected, each with `EncodeError` (model = odxtools, run on /repo): unknown text, an int / bytes / float / list for the
+    TEXTTABLE; 362 and −42 (outside the physical limits), a string / float / bytes / list for the LINEAR leaf; nothing at all -/
+example : [tMk (.atom (.str [0x78])) (.atom (.int 0)), tMk (.atom (.int 5)) (.atom (.int 0)), tMk (.atom (.bytes [1])) (.atom (.int 0)),
+      tMk (.atom (.flt 0)) (.atom (.int 0)), tMk (.list []) (.atom (.int 0)),
+      tMk tHi (.atom (.int 362)), tMk tHi (.atom (.int (-42))), tMk tHi (.atom (.str [0x31])), tMk tHi (.atom (.flt 0)),
+      tMk tHi (.atom (.bytes [1])), tMk tHi (.list []), .dict [("st", .dict [("mode", tHi)])]].all (fun p =>
+      p.wfAtoms && p.typedForP tDesc && decide (p.needFor tDesc ≤ modelFuel) && p.acceptedByP tDesc == false &&
+      errClass (encodeMessage none (PDescs.toParams tDesc) p none true) == some .encode) = true := by decide +kernel
+
+/-- the `typedForP` hypothesis is what it excludes: a string that is no sequence of Unicode scalar values (lone surrogate) —
+    `unmodelled` in the model's conversion layer -/
+example : let p := tMk (.atom (.str [0xD800])) (.atom (.int 0))
+    p.wfAtoms = true ∧ p.typedForP tDesc = false ∧
+    errClass (encodeMessage none (PDescs.toParams tDesc) p none true) = some .unmodelled := by decide +kernel
+
+/-- the theorem applies: the PDU of ("hi", 360) decodes to its completion -/
+example : ∃ cursor, decodeMessage none (PDescs.toParams tDesc) [0x22, 9, 200] true =
+    .ok (.dict (PDescs.complete tDesc [("st", .dict [("mode", tHi), ("t", .atom (.int 360))])]), cursor) := by
+  rcases C04_nested3_partial tDesc tDesc_described tDesc_names.1 tDesc_names.2 (tMk tHi (.atom (.int 360)))
+    (by decide +kernel) none (by decide +kernel) (by decide +kernel) with ⟨e, he, _⟩ | ⟨kvs, pdu, w, hkvs, _, henc, hrt⟩
+  · have : (encodeMessage none (PDescs.toParams tDesc) (tMk tHi (.atom (.int 360))) none true).toOption = none := by rw [he]; rfl
+    exact absurd this (by decide +kernel)
+  · have h2 : (encodeMessage none (PDescs.toParams tDesc) (tMk tHi (.atom (.int 360))) none true).toOption = some (pdu, w) := by
+      rw [henc]; rfl
+    have h4 : (encodeMessage none (PDescs.toParams tDesc) (tMk tHi (.atom (.int 360))) none true).toOption
+        = some ([0x22, 9, 200], 0) := by decide +kernel
+    rw [h2] at h4
+    simp only [Option.some.injEq, Prod.mk.injEq] at h4
+    obtain ⟨hp, hw⟩ := h4
+    subst hp
+    cases hkvs
+    obtain ⟨cursor, hdec⟩ := hrt hw (fun h => by cases h)
+    exact ⟨cursor, hdec⟩
 
 end OdxVerif.Codec
